@@ -2,6 +2,7 @@
 //!
 //!   pv-harness-bld gen <thrift|pb> <single|split|workspace|workspace-split> <out> [flags] -- <idl>...
 //!       flags: --keep  --no-change-case  --no-ignore-unused  --include <dir>  --dump <file>  --dump-derive <file>
+//!              --dedup <Name,Name>   Builder::dedup: structurally equal items with one of these names are emitted once per module
 //!       --dump-derive writes the input of AutoDerivePlugin as the plugins see it (the resolved rir, not the IDL):
 //!         ORDER <def ids of Context.codegen_items, comma separated>
 //!         ITEM <def id> <emitted 0|1> <Display of rust_name> <M:ty,ty | E:ty,ty/ty | N:ty | S | C | O>
@@ -229,6 +230,7 @@ fn gen(a: &[String]) {
     let mut includes: Vec<PathBuf> = vec![];
     let mut dump: Option<PathBuf> = None;
     let mut dump_derive: Option<PathBuf> = None;
+    let mut dedup: Vec<faststr::FastStr> = vec![];
     let mut files: Vec<PathBuf> = vec![];
     let mut i = 3;
     let mut in_files = false;
@@ -248,6 +250,10 @@ fn gen(a: &[String]) {
                 "--dump" => {
                     i += 1;
                     dump = Some(PathBuf::from(&a[i]));
+                }
+                "--dedup" => {
+                    i += 1;
+                    dedup.extend(a[i].split(',').filter(|x| !x.is_empty()).map(|x| faststr::FastStr::new(x)));
                 }
                 "--dump-derive" => {
                     i += 1;
@@ -297,7 +303,8 @@ fn gen(a: &[String]) {
                 .ignore_unused(ignore_unused)
                 .change_case(change_case)
                 .split_generated_files(split)
-                .keep_unknown_fields(keep_files.clone());
+                .keep_unknown_fields(keep_files.clone())
+                .dedup(dedup.clone());
             if let Some(p) = dump.clone() {
                 b = b.plugin(DumpPlugin { path: p, workspace });
             }
@@ -312,7 +319,8 @@ fn gen(a: &[String]) {
                 .ignore_unused(ignore_unused)
                 .change_case(change_case)
                 .split_generated_files(split)
-                .keep_unknown_fields(keep_files.clone());
+                .keep_unknown_fields(keep_files.clone())
+                .dedup(dedup.clone());
             if let Some(p) = dump.clone() {
                 b = b.plugin(DumpPlugin { path: p, workspace });
             }
